@@ -30,3 +30,6 @@ gen_resubmit.main([os.path.join(b, "src"), vlib.LEAN])
 
 import gen_topup
 gen_topup.main([os.path.join(b, "src"), vlib.LEAN])
+
+import gen_mhupdate
+gen_mhupdate.main([os.path.join(b, "src"), vlib.LEAN])
